@@ -2,6 +2,7 @@ import ChfVerif.Lemmas.BerEncode
 import ChfVerif.Lemmas.BerMarshalSafe
 import ChfVerif.Lemmas.BerInt
 import ChfVerif.Gen.Schema
+import ChfVerif.Lemmas.X690WellFormed
 /-
   C04 — the BER encoder's output is that of an independent X.690 encoder, and marshalling never panics.
 
@@ -13,9 +14,11 @@ import ChfVerif.Gen.Schema
 
   The well-formedness clauses of the statement (minimal INTEGER contents, BOOLEAN 00/FF, BIT STRING unused
   bits, class/constructed bits, minimal tag-number and length octets, children summing to the parent's
-  length) are facts about the reference encoder's output; the ones proved here outright are
-  `C04_integer_minimal`, `C04_bool`, `C04_bits_unused`; the others are checked on every run by the
-  independent walker `X690.wellFormed` on the implementation's bytes (see DESIGN.md, C04).
+  length) are what the independent walker `X690.wellFormed` checks; `C04_wellformed` proves that every output
+  of the encoder is accepted by it (via `encode_wf_all`: every output of the reference encoder is one
+  well-formed element, by mutual induction), for values whose integers are int64, whose octet-less BIT STRINGs
+  have bit length 0 mod 8, and types whose character-string tags are not those of BOOLEAN/INTEGER/BIT STRING/
+  NULL/ENUMERATED (`strOK`, checked for the whole regenerated schema by decide).
 -/
 namespace Chf.Props.C04
 open Chf Chf.Ber Chf.X690
@@ -44,6 +47,18 @@ theorem C04_schema (name : String) (t : Ty) (hmem : (name, t) ∈ Gen.schema) (p
   have h := List.all_eq_true.mp schema_ok (name, t) hmem
   simp only [Bool.and_eq_true] at h
   exact ⟨C04_no_panic t p v h.1, fun b hl hm => C04 t p v b h.2 hp hv hl hm⟩
+
+/-- C04 (well-formedness): whatever the encoder returns is one well-formed definite-length BER element -/
+theorem C04_wellformed (t : Ty) (p : Params) (v : Val) (b : Bytes)
+    (ht : tagsOK t = true) (hs : strOK t = true) (hp : paramsOK p = true) (hsp : strParamOK p = true)
+    (hv : valOK v = true) (hb : bitsOK v = true) (hl : b.length < 18446744073709551616)
+    (hm : marshal t p v = .ok b) : wellFormed b = true := by
+  have he := C04 t p v b ht hp hv hl hm
+  obtain ⟨_, _, _, _, hwf⟩ := encode_wf_all.1 t p v b ht hs hp hsp hv hb he hl
+  exact hwf (b.length + 1) (Nat.le_succ _)
+
+/-- the character-string tags of all regenerated schema types are free of the walker's primitive checks -/
+theorem schema_strOK : Gen.schema.all (fun e => strOK e.2) = true := by decide +kernel
 
 /-- INTEGER / ENUMERATED contents are the minimal two's-complement octets -/
 theorem C04_integer_minimal (i : Int) (h : -9223372036854775808 ≤ i ∧ i ≤ 9223372036854775807) :
